@@ -13,9 +13,15 @@ Definition close_vec (rtol atol : Q) (a b : list Q) : Prop :=
 Definition img_wf (im : img) : Prop :=
   3 <= length (ishape im) <= 5 /\ forall d, islice im = Some d -> d < 3.
 
-(** "the image still matches the extension for class c": trailing dimensions, slice count,
-    slice dim present on both sides, slice-row fingerprint within tolerance *)
-Definition agrees (im : img) (h : hdr) (c : cls) : Prop :=
+(** column [j] of the 3x3 part of an affine: the DIRECTION in which voxel axis [j] runs *)
+Definition col3 (j : nat) (a : list (list Q)) : list Q := map (fun r => nth j r 0%Q) (firstn 3 a).
+(** row [j] of the 3x3 part (what the code calls the "slice normal") *)
+Definition row3 (j : nat) (a : list (list Q)) : list Q := firstn 3 (nth j a []).
+
+(** WHAT THE CODE TESTS ([meta_valid]): trailing dimensions, slice count, slice dim present on both sides, and the
+    ROW [affine[slice_dim, :3]] of the image within tolerance of the row of the extension's affine.  This is NOT the
+    slice direction (open finding N13); the predicate written from the property text is [agrees_dir] below. *)
+Definition agrees_code (im : img) (h : hdr) (c : cls) : Prop :=
   match c with
   | GConst => True
   | VSamples => skipn 4 (shape h) = skipn 4 (ishape im)
@@ -31,6 +37,54 @@ Definition agrees (im : img) (h : hdr) (c : cls) : Prop :=
         | _ => skipn 3 (shape h) = skipn 3 (ishape im)
         end
   end.
+
+Notation agrees := agrees_code (only parsing).      (* former name, kept for dependants *)
+
+(** THE SPEC (from the property text): trailing dimensions, slice count and presence of a slice axis as above, and the
+    slice DIRECTIONS agree: column [:3, slice dim] of the image affine within tolerance of the column of the affine
+    recorded in the extension (raw columns, tolerance as in the code). *)
+Definition agrees_dir (im : img) (h : hdr) (c : cls) : Prop :=
+  match c with
+  | GConst => True
+  | VSamples => skipn 4 (shape h) = skipn 4 (ishape im)
+  | TSamples => skipn 3 (shape h) = skipn 3 (ishape im)
+  | _ =>
+      exists isd msd,
+        islice im = Some isd /\ sdim h = Some msd /\
+        nth msd (shape h) 0 = nth isd (ishape im) 0 /\
+        close_vec rtol_default meta_valid_atol (col3 isd (iaff im)) (col3 msd (aff h)) /\
+        match c with
+        | TSlices => True
+        | VSlices => py_slice 3 4 (shape h) = py_slice 3 4 (ishape im)
+        | _ => skipn 3 (shape h) = skipn 3 (ishape im)
+        end
+  end.
+
+(** executable form of [agrees_dir] (spec side; used for witnesses) *)
+Definition agrees_dirb (im : img) (h : hdr) (c : cls) : bool :=
+  match c with
+  | GConst => true
+  | VSamples => list_nat_eqb (skipn 4 (shape h)) (skipn 4 (ishape im))
+  | TSamples => list_nat_eqb (skipn 3 (shape h)) (skipn 3 (ishape im))
+  | _ =>
+      match islice im, sdim h with
+      | Some isd, Some msd =>
+          (nth msd (shape h) 0 =? nth isd (ishape im) 0) &&
+          allclose rtol_default meta_valid_atol (col3 isd (iaff im)) (col3 msd (aff h)) &&
+          match c with
+          | TSlices => true
+          | VSlices => list_nat_eqb (py_slice 3 4 (shape h)) (py_slice 3 4 (ishape im))
+          | _ => list_nat_eqb (skipn 3 (shape h)) (skipn 3 (ishape im))
+          end
+      | _, _ => false
+      end
+  end.
+
+(** domain on which row and column coincide: the slice row of the 3x3 part equals the slice column (e.g. a symmetric
+    3x3 part, in particular a slice axis aligned with world axis [slice dim]: axial storage) *)
+Definition row_eq_col (a : list (list Q)) (d : nat) : Prop := row3 d a = col3 d a.
+Definition slice_sym (im : img) (h : hdr) : Prop :=
+  (forall d, islice im = Some d -> row_eq_col (iaff im) d) /\ (forall d, sdim h = Some d -> row_eq_col (aff h) d).
 
 (** grid position addressed by a voxel index of the image *)
 Definition pos_of (im : img) (ix : list Z) : pos :=
